@@ -108,6 +108,20 @@ mod twin {
             kani::assume(x <= y && y <= n);
             assert!(stepper_ok(&b[..n], t, x, y));
         }
+        /// LineTerminator::is_suffix (grep-matcher, used by the printers to decide whether a printed line
+        /// still needs a terminator): "true iff the slice ends with this line terminator; for CRLF only the
+        /// last byte is checked against `\n`" -- every terminator, every slice of up to 3 bytes
+        #[kani::proof] #[kani::unwind(6)]
+        fn line_terminator_is_suffix_matches_doc_len3() {
+            let b: [u8; 3] = kani::any();
+            let n: usize = kani::any();
+            kani::assume(n <= 3);
+            let crlf: bool = kani::any();
+            let t: u8 = kani::any();
+            let lt = if crlf { LineTerminator::crlf() } else { LineTerminator::byte(t) };
+            let want = n > 0 && b[n - 1] == (if crlf { b'\n' } else { t });
+            assert!(lt.is_suffix(&b[..n]) == want);
+        }
         #[kani::proof] #[kani::unwind(8)]
         fn count_matches_spec_len5() {
             let (b, n, t) = input();
